@@ -33,6 +33,18 @@ Definition str_len (v : value) : option Z :=
 
 Definition is_and (c : ctl) : bool := match c with CAnd | CWithin => true | _ => false end.
 
+(* ---------- leaf types: decided by inspection of the value (RFC 8610 2.2.x, 3.1, 3.6, App. D) ---------- *)
+Definition leaf (jm : bool) (t : ty) (v : value) : option bool :=
+  match t with
+  | TAny => Some true
+  | TMajor m => Some (N.eqb m (major_of v))
+  | TSimple n => Some (match simple_of v with Some k => N.eqb n k | None => false end)
+  | TFloat => Some (match v with VFloat _ => true | VInt _ => jm | _ => false end)
+  | TLit l => Some (lit_matches l v)
+  | TRange lo hi incl => Some (in_range lo hi incl v)
+  | _ => None
+  end.
+
 (* ---------- map groups: normal form ---------- *)
 Record entry := { e_lo : N; e_hi : option N; e_key : ty; e_cut : bool; e_val : ty }.
 
@@ -116,7 +128,7 @@ Definition valid_assign (es : list entry) (cols : list (list cell)) (a : list na
 Fixpoint search (es : list entry) (cols : list (list cell)) (done : list nat) : bool :=
   match cols with
   | [] => counts_ok es 0 done
-  | col :: cols' => existsb (fun i => pair_ok es col i && search es cols' (i :: done)) (seq 0 (length es))
+  | col :: cols' => existsb (fun i => pair_ok es col i && search es cols' (done ++ [i])) (seq 0 (length col))
   end.
 
 Definition decide_map (es : list entry) (cols : list (list cell)) : bool := search es cols [].
@@ -129,16 +141,11 @@ Fixpoint vt (fuel : nat) (jm : bool) (e : env) (t : ty) (v : value) {struct fuel
   | O => None
   | S f =>
     match t with
-    | TAny => Some true
-    | TMajor m => Some (N.eqb m (major_of v))
-    | TSimple n => Some (match simple_of v with Some k => N.eqb n k | None => false end)
-    | TFloat => Some (match v with VFloat _ => true | VInt _ => jm | _ => false end)
+    | TAny | TMajor _ | TSimple _ | TFloat | TLit _ | TRange _ _ _ => leaf jm t v
     | TTag n t' => match v with
                    | VTag n' v' => if N.eqb n n' then vt f jm e t' v' else Some false
                    | _ => Some false
                    end
-    | TLit l => Some (lit_matches l v)
-    | TRange lo hi incl => Some (in_range lo hi incl v)
     | TRef n => match lookup_all e n with
                 | Some (DType t') => vt f jm e t' v
                 | _ => None
